@@ -38,6 +38,50 @@ check('C17', 'oset', 'exploration',
       '(pyxtuml has no threads). Order is compared only where the statement fixes it.',
       'DESIGN.md §4 C17')
 
+STORE_NOTE = ('Trusted: the relational reference model (engines/refstore.py), the handle<->instance map of the harness, CPython. '
+              'Interleaving granularity is the API call (pyxtuml has no threads). Single-hop result order and the value of a '
+              'referential attribute shared by several associations are compared tolerantly (see DESIGN.md §4). Sampling, not proof.')
+STORE_TECH = ('deterministic simulation: seeded interleaved API-call histories by 1-3 logical clients with injected rejected '
+              'calls (F1), owned entropy, reference-model comparison of the whole observable state after every step')
+
+check('C02', 'store', 'exploration', STORE_TECH,
+      'Seeded histories of new/relate/unrelate/delete in both argument orders, with and without phrase, over every association '
+      'shape of the quantifier, with deliberately rejected calls (second partner on a single-valued end, unrelate of an unlinked '
+      'pair, unknown association/phrase/class pair, repeated delete). After every call: outcome (return value or exception class) '
+      'equals the reference; navigation from both ends of every association for every live instance equals the reference pair set '
+      '(hence symmetric, live instances only); every referential attribute reads as a linked identifying value or unset; a rejected '
+      'call leaves pools, links, attribute reads and the serialized text unchanged.', STORE_NOTE, 'DESIGN.md §4 C02')
+check('C09', 'store', 'exploration', STORE_TECH,
+      'Inside the same histories one client issues select_many/one/any with where_eq, dict filters, lambdas and (reverse_)order_by '
+      'in any combination, and navigation chains of length 1-4 from None, an instance, a QuerySet, a list, a generator or a '
+      'selection, through association classes and reflexive associations, in nav() and attribute/index syntax, plus '
+      'navigate_subtype; results are compared with a relational evaluation by the reference; results held by a client across '
+      'other clients\' mutations must keep their content.', STORE_NOTE, 'DESIGN.md §4 C09')
+check('C10', 'store', 'exploration', STORE_TECH,
+      'Histories of attribute writes, reads, deletes, constructor keywords, where_eq filters and class lookups, each under an '
+      'independently drawn spelling; after every step every attribute of every live instance is read under every case pattern '
+      '(exhaustive for names of up to four letters) and compared with the single value the reference holds, as is the serialized '
+      'text; writes to referential attributes must be rejected without effect.', STORE_NOTE, 'DESIGN.md §4 C10')
+check('C11', 'store', 'exploration', STORE_TECH,
+      'In every state reached by the histories (under-populated ends, null and duplicate identifiers provoked on purpose) '
+      'check_association_integrity (all / one association), check_uniqueness_constraint (all / one class), '
+      'check_subtype_integrity and is_consistent are compared with nested-loop counts written from the statement; where the '
+      'statement admits two readings the check accepts either.',
+      STORE_NOTE + ' Over-populated ends (only reachable by loading duplicate keys) and the command-line tools are covered by the delivery engine once committed.',
+      'DESIGN.md §4 C11')
+check('C16', 'store', 'exploration', STORE_TECH,
+      'Chains and rings of a reflexive conditional 1:1 association arise from relate/unrelate/delete histories in arbitrary '
+      'creation order (rejected relates included); after which sets made of whole chains, a single ring, the empty set, or '
+      'arbitrary subsets are sorted across either phrase. Oracle: permutation, every chain contiguous from its head along the '
+      'opposite phrase, ring once around from the first member; termination by a step meter (sys.monitoring line events) with '
+      'a wall-clock backstop that is only believed after confirmation in a fresh process.', STORE_NOTE, 'DESIGN.md §4 C16')
+check('C19', 'store', 'exploration', STORE_TECH,
+      'Creation histories with any mix of positional, keyword (any spelling, repeated) and omitted arguments on schemas with all '
+      'core types in lower/upper/capitalised type names and a class with an unknown type; uuid generator on a seeded entropy '
+      'seam, integer generator, user-defined IdGenerator subclass and plain iterator; interleaved peek/next/next() calls. Every '
+      'attribute of the new instance equals the reference (typed default, then positional, then keyword); every defaulted id equals '
+      'the next value of the reference generator and is never null; peeking never advances.', STORE_NOTE, 'DESIGN.md §4 C19')
+
 
 def build():
     sys.path.insert(0, HERE)
@@ -87,7 +131,7 @@ def build():
 
 if __name__ == '__main__':
     # pending properties are claimed in DESIGN.md but their check is not committed yet
-    for pid in ('C01', 'C02', 'C03', 'C09', 'C10', 'C11', 'C12', 'C13', 'C16', 'C18', 'C19'):
+    for pid in ('C01', 'C03', 'C12', 'C13', 'C18'):
         PENDING[pid] = 'simulation target per DESIGN.md; check under construction and not claimed until it is committed'
     doc = build()
     with open(os.path.join(HERE, 'MANIFEST.json'), 'w') as f:
